@@ -453,6 +453,39 @@ Section Trans.
       destruct (Hih t0 c f Hin). split; auto.
   Qed.
 
+  (* variant: the ghost `off` list changes at index i as well (change_tree) *)
+  Lemma UIC_set_tree_off cr cr' ih ih' x i t t' offs' :
+    UIC cr ih x -> tree_at (us x) i = Some t ->
+    length offs' = length (off x) ->
+    (forall k, k <> nn i -> nth k offs' 0 = nth k (off x) 0) ->
+    (forall j, j <> i -> cr' j = cr j) ->
+    (forall j, j <> i -> ih_of ih' j = ih_of ih j) ->
+    tree_okC g policy (us x) offs' cr' ih' (nn i) t' ->
+    (forall t0 c f, In (t0, c, f) ih' -> t0 < ntrees (us x) /\ class_slots (us x) c <> None) ->
+    UIC cr' ih' {| us := set_tree (us x) i t'; off := offs' |}.
+  Proof.
+    intros (H1 & H2 & H3 & H4 & H5 & H6 & H7 & H8) Ht Hlo Hoffs Ecr Eih Hok Hih.
+    unfold UpperInvC. cbn [us off]. cbv zeta.
+    cbn [low set_tree with_trees trees locals dflt]. rewrite upd_length.
+    splits; auto.
+    - congruence.
+    - intros k tk Hk. destruct (Nat.eq_dec k (nn i)) as [->|Nk].
+      + unfold tree_at in Ht. rewrite nth_error_upd_same in Hk by (apply nth_error_Some; congruence).
+        inversion Hk; subst tk. eapply tree_okC_ext; [| |apply Hok]; reflexivity.
+      + rewrite nth_error_upd_other in Hk by auto.
+        assert (Nk' : N.of_nat k <> i) by (unfold nn in *; lia).
+        destruct (H6 k tk Hk) as (A & B & C & D & F).
+        eapply tree_okC_ext with (u := us x); [reflexivity|reflexivity|].
+        unfold tree_okC. rewrite Ecr, Eih, Hoffs by auto. splits; auto.
+        intros c f0 Hin. apply (F c f0).
+        assert (Q : In (N.of_nat k, c, f0) (ih_of ih' (N.of_nat k))) by (apply in_ih_of; auto).
+        rewrite Eih in Q by auto. apply in_ih_of in Q. tauto.
+    - intros c s Hin. rewrite ntrees_set_tree. apply (H7 c s).
+      unfold present_slots in *. erewrite all_slots_ext; eauto.
+    - intros t0 c f Hin. rewrite ntrees_set_tree.
+      destruct (Hih t0 c f Hin). split; auto.
+  Qed.
+
   (* ----- the lower allocator state is replaced ----- *)
   Lemma UIC_with_low cr cr' ih x l' :
     UIC cr ih x -> LowerInv g l' -> frames l' = frames (low (us x)) ->
